@@ -37,6 +37,10 @@ def gen_cases(tier, seed):
                     "bare_thread": r.random() < 0.75, "W": r.choice([1, 4]), "filler": r.randint(0, 5),
                     "copy_reg": r.random() < 0.35,
                     "recursive": r.choice([0, 0, 0, 1, 2, 3, 6]),  # the creating helper calls itself: several captured frames share function, file and line
+                    # where the user's builder module is installed (the code is compiled under that file name): a source checkout, a pip-installed
+                    # team library, a distribution package, a notebook directory - attribution never depends on it
+                    "srcdir": r.choice(["/verif/scratch/gen", "/verif/scratch/gen", "/opt/team/lib/python3.12/site-packages/teamplans", "/usr/lib/python3/dist-packages/jobs",
+                                        "/home/u/IPython-notebooks/core-plans", "/srv/app/lib/uberjob_plans"]),
                     "modname": r.choice(MODNAMES)})  # __name__ of the user's builder module (nothing about uberjob may depend on it)  # run with registry.copy(): the copy must attribute failures to the same lines
     return out
 
@@ -194,7 +198,7 @@ def run_case(desc):
         captured[tag] = chain
 
     src = make_source(desc)
-    fname = f"/verif/scratch/gen/c19_{desc['seed']}.py"
+    fname = f"{desc.get('srcdir', '/verif/scratch/gen')}/c19_{desc['seed']}.py"
     ns = {"__name__": desc.get("modname", "gen_builder")}
     exec(compile(src, fname, "exec"), ns)
     plan = uberjob.Plan()
